@@ -550,6 +550,7 @@ fn special_items(ctx: &Ctx, prop: &str) -> Vec<(String, usize)> {
             for n in if q { vec![8usize, 32] } else { vec![8, 16, 32, 48, 64] } {
                 v.push(("bomb-with-links".into(), n));
                 v.push(("bomb-with-links".into(), n));
+                v.push(("tilemap-bomb-with-links".into(), n.min(24)));
             }
             // one honest image well above 64 MiB *before* the small hostile files that follow in
             // this job: anything a load leaves behind in the process (size hints, pooled buffers)
@@ -622,7 +623,7 @@ fn special_items(ctx: &Ctx, prop: &str) -> Vec<(String, usize)> {
                 }
             }
             for b in spec::BUGS {
-                if !matches!(*b, "deep-nesting" | "many-layers" | "many-tags" | "many-frames-high-layer" | "deflate-bomb" | "tilemap-huge-extent" | "link-chain" | "bomb-with-links" | "many-palette-packets" | "chunk-size-boundary" | "zlib-split-a" | "zlib-split-b" | "palette-shift-a" | "palette-shift-b") {
+                if !matches!(*b, "deep-nesting" | "many-layers" | "many-tags" | "many-frames-high-layer" | "deflate-bomb" | "tilemap-huge-extent" | "link-chain" | "bomb-with-links" | "tilemap-bomb-with-links" | "many-palette-packets" | "chunk-size-boundary" | "zlib-split-a" | "zlib-split-b" | "palette-shift-a" | "palette-shift-b") {
                     for _ in 0..if q { 2 } else { 12 } {
                         v.push((b.to_string(), 1));
                     }
@@ -900,7 +901,7 @@ pub fn gen_special(rseed: u64, bug: &str, scale: usize, r: &mut Rng) -> Base {
     let r: &mut Rng = if paired { &mut local } else { r };
     let mut sr = Rng::sub(rseed, "spec");
     let mut s = spec::gen_spec(&mut sr);
-    if scale > 100 || bug == "bomb-with-links" {
+    if scale > 100 || bug == "bomb-with-links" || bug == "tilemap-bomb-with-links" {
         // keep the rest of the sprite small so the file stays within the size cap
         s.durations.truncate(2);
         s.cels.retain(|c| (c.frame as usize) < 2);
